@@ -132,7 +132,9 @@ def expand_c10(cfg):
     rnd = random.Random(cfg['chord'] * 1000 + cfg['camber'] * 10 + cfg['nside'])
     n = len(sec['pts'])
     rec = {'m': 'airfoil', 'op': 'analyze', 'wd': 120000, 'closed': not cfg['open'], 'tolq': 100, 'cfg': cfg,
-           'orient': {'kind': 'dir' if cfg['open'] else cfg['orient'], 'd': [-1, 0]}, 'le': {'kind': cfg['le']}, 'te': {'kind': cfg['te']},
+           # requested forward direction for DirectionFwd: along the chord, or 79 degrees off it to either side (still pointing
+           # towards the leading edge, but closer to the initial heading of a cambered camber line than to the chord)
+           'orient': {'kind': 'dir' if cfg['open'] else cfg['orient'], 'd': ([-1, 0], [-1, 5], [-1, -5])[cfg.get('od', 0)]}, 'le': {'kind': cfg['le']}, 'te': {'kind': cfg['te']},
            'face': {'kind': cfg['face'], 'd': [0, 1]},
            'variants': [{'T': IDENT, 'rev': False, 'shift': 0},
                         {'T': motion(rnd, chord), 'rev': False, 'shift': 0},
@@ -157,7 +159,7 @@ def gen_c10_random(rnd, tier):
     for k in range(n):
         cfg = {'m': 'airfoil', 'op': 'config', 'chord': rnd.randint(0, 5), 'camber': rnd.choice([1, 3, 4, 6, 7]), 'thick': rnd.choice([5, 6, 7, 8]),
                'le': rnd.choice(methods), 'te': rnd.choice(methods), 'orient': rnd.choice(['tmax', 'dir']),
-               'face': rnd.choice(['upper', 'detect']), 'nside': rnd.choice([120, 240, 320]), 'open': False}
+               'face': rnd.choice(['upper', 'detect']), 'nside': rnd.choice([120, 240, 320]), 'open': False, 'od': rnd.randint(0, 2)}
         out.append(expand_c10(cfg))
     return out
 
